@@ -55,13 +55,17 @@ class C12(Prop):
                 s, e = e + rng.choice([1, 60, DAY]), s
             cases.append({'kind': 'sim', 'start': s, 'stop': e, 'pre': rng.random() < 0.5, 'post': rng.random() < 0.5,
                           'stream': 'random', 'naive': rng.random() < 0.15, 'flagkind': rng.choice(['bool', 'bool', 'np', 'int'])})
+            if rng.random() < 0.2 and e >= s:
+                cases[-1]['built'] = [rng.random() < 0.5, rng.random() < 0.5]
+                cases[-1]['stream'] = 'switches-set-after-construction'
         # the clock a SESSION holds is the clock of its (start, end) range without pre / post market events, whatever its burn-in
         for i in range(40 if tier == 'quick' else 400):
             s, e = gen_range(rng, tier)
             if e < s:
                 s, e = e, s
             burn = rng.choice([None, s + rng.randint(0, max(1, e - s)), (s // DAY + rng.randint(0, 9)) * DAY + rng.choice([52200, 75600, 0])])
-            cases.append({'kind': 'sess_clock', 'start': s, 'stop': e, 'pre': False, 'post': False, 'burn': burn,
+            onoff = rng.random() < 0.3
+            cases.append({'kind': 'sess_clock', 'start': s, 'stop': e, 'pre': onoff and rng.random() < 0.6, 'post': onoff and rng.random() < 0.6, 'burn': burn,
                           'which': rng.choice(['weekly', 'daily', 'end_of_month', 'buy_and_hold']), 'stream': 'session-wiring'})
         if tier == 'thorough':
             for a in range(0, 70):
@@ -84,7 +88,7 @@ class C12(Prop):
 
     def judge(self, c, impl, mod):
         j = Judgement()
-        j.key = (c['start'], c['stop'], c['pre'], c['post'], bool(c.get('naive')), c.get('flagkind', 'bool'), c['kind'], c.get('burn'))
+        j.key = (c['start'], c['stop'], c['pre'], c['post'], bool(c.get('naive')), c.get('flagkind', 'bool'), c['kind'], c.get('burn'), repr(c.get('built')))
         if impl[0] == 'err' or mod[0] == 'err':
             mi = mod[1] if mod[0] == 'err' else 'ok'
             ii = impl[1] if impl[0] == 'err' else 'ok'
